@@ -22,7 +22,7 @@
    whole residual gap between scanner.Find and the search without windows (windows_eq_ideal). *)
 From Coq Require Import List NArith ZArith Bool.
 From GoPdf.Base Require Import Bytes Res.
-From GoPdf.C20 Require Import SeqScan SeqScanProofs MarkerFacts WindowProofs WindowTheorems.
+From GoPdf.C20 Require Import SeqScan SeqScanProofs MarkerFacts WindowProofs WindowTheorems FastScan.
 Import ListNotations.
 
 (* Documentation: BEFORE fix F24 scanner.Find's `^` alternative matched at the beginning of
@@ -47,6 +47,15 @@ Theorem windows_eq_ideal :
     scan_windows data = scan_ideal data.
 Proof. exact windows_eq_ideal_lemma. Qed.
 Print Assumptions windows_eq_ideal.
+
+(* The model the driver executes on every prefix of every generated file is
+   scan_windows_fast (FastScan.v): the same search with the current slice and the offset of
+   the read position carried along instead of recomputed from the beginning of the file after
+   every match.  It is the search of the theorems. *)
+Theorem scan_windows_fast_is_scan_windows :
+  forall data, scan_windows_fast data = scan_windows data.
+Proof. exact scan_windows_fast_eq. Qed.
+Print Assumptions scan_windows_fast_is_scan_windows.
 
 Theorem tame_prefix : forall data n, tame data -> tame (firstn n data).
 Proof. exact tame_firstn. Qed.
